@@ -102,6 +102,14 @@ def w_rollback_refused_unmanaged(events, line):
     return any(l in before and l not in managed_before for l in taken)
 
 
+def w_mixed_replace_rejected(events, line):
+    """a TransactionSet that carries a replace intent AND ordinary intents, answered with validation errors (or an
+    error) after the replace part was applied already"""
+    e = events[line - 1]
+    return e["ev"] == "txset" and e.get("hasrepl") and len(e["intents"]) > 0 and e["ret"] in ("invalid", "error") \
+        and any(s["upd"] or s["delraw"] for s in e["sets"])
+
+
 def faulty_step(events, line):
     """the fault-injected TransactionSet of the behaviour the event at `line` belongs to"""
     e = events[line - 1]
@@ -190,6 +198,7 @@ WITNESS = {
     "silent_read_failure": w_silent_read_failure,
     "rollback_unmanaged_overwritten": w_rollback_unmanaged_overwritten,
     "rollback_refused_unmanaged": w_rollback_refused_unmanaged,
+    "mixed_replace_rejected": w_mixed_replace_rejected,
 }
 
 
